@@ -113,6 +113,7 @@ def gen_code(config, rng, n):
     jumps = sorted(set(r.hasjrel) | set(r.hasjabs))
     hasarg = sorted(x for x in r.hasarg if x != ext and x >= have and opc.opname[x] and not opc.opname[x].startswith("<"))
     noarg = sorted(x for x in range(1, have) if not opc.opname[x].startswith("<")) or [1]
+    tabled = sorted(x for x in (set(r.hasconst) | set(r.hasname) | set(r.haslocal) | set(r.hasfree) | set(r.hascompare)) if x >= have and x < 256)
     out = []
     for _ in range(n):
         code = bytearray()
@@ -121,8 +122,12 @@ def gen_code(config, rng, n):
             pre = 0
             if ext >= 0 and roll < 0.3:
                 pre = rng.randint(1, 3 if word else 1)
-            if roll < 0.75 and jumps:
+            small = False
+            if roll < 0.45 and jumps:
                 op = rng.choice(jumps)
+            elif roll < 0.8 and tabled:
+                op = rng.choice(tabled)
+                small = True
             elif roll < 0.9 and hasarg:
                 op = rng.choice(hasarg)
             else:
@@ -136,12 +141,12 @@ def gen_code(config, rng, n):
                 else:
                     code += bytes([ext, rng.randrange(256), rng.choice([0, 1, rng.randrange(256)])])
             if word:
-                code += bytes([op, rng.choice([0, 1, 2, 3, 5, 255, rng.randrange(256)])])
+                code += bytes([op, rng.choice([0, 1, 2, 3, 4, 5]) if small and not pre else rng.choice([0, 1, 2, 3, 5, 255, rng.randrange(256)])])
                 for _c in range(r.caches.get(op, 0) if opc.version_tuple >= (3, 11) else 0):
                     code += b"\x00\x00"
             else:
                 if op >= have:
-                    code += bytes([op, rng.randrange(256), rng.choice([0, 0, 1, rng.randrange(256)])])
+                    code += bytes([op, rng.choice([0, 1, 2, 3, 4]), 0]) if small and not pre else bytes([op, rng.randrange(256), rng.choice([0, 0, 1, rng.randrange(256)])])
                 else:
                     code += bytes([op])
         out.append(bytes(code))
